@@ -3,7 +3,7 @@ import importlib
 
 from vf.common import fail, patched
 from vf.engine import Cond
-from harness.scripttorch import ScriptTorch, LT, is_perm, distinct_in, ScriptExhausted
+from harness.scripttorch import ScriptTorch, LT, is_perm, distinct_in, ScriptExhausted, ShimMiss
 from harness.c12 import ClassDS, LenDS, CB_MOD, WS_MOD, cb_draw_sizes, split_draws, make_cb, CB_LAYOUTS_Q, CB_LAYOUTS_T
 
 SS_MOD = importlib.import_module("kappadata.samplers.semi_sampler")
@@ -50,6 +50,8 @@ def body_cb_epoch(cfg, seed, epoch, *flat):
             ln = len(s)
     except ScriptExhausted:
         return fail("more random draws than one permutation round per class needs")
+    except ShimMiss:
+        raise  # the stub does not model an operation the code used: harness error, not a verdict
     except Exception as e:
         return fail("exception " + type(e).__name__)
     n = len(layout)
@@ -135,32 +137,39 @@ def body_semi(cfg, seed, epoch, h0, h1, h2, *flat):
     return True
 
 
-def body_weighted(cfg, size, seed, epoch, *draw):
-    """cfg = (n, W, r)"""
-    n, W, r = cfg
+def body_weighted(cfg, size, seed, epoch, *draws):
+    """cfg = (n, W): all ranks of one epoch together never repeat an index"""
+    n, W = cfg
     eff = n if size == 0 else size
     if eff > n:
         return True
-    draw = list(draw[:eff])
-    if not distinct_in(draw, n) or len(draw) != eff:
+    d1 = list(draws[:n][:eff])
+    d2 = list(draws[n:2 * n][:eff])
+    if not (distinct_in(d1, n) and distinct_in(d2, n) and len(d1) == eff and len(d2) == eff):
         return True
-    st = ScriptTorch([list(draw)])
+    st = ScriptTorch([list(d1), list(d2)])
     try:
         with patched(WS_MOD, torch=st):
-            s = WS_MOD.WeightedSampler(LenDS(n), weights=[1.0] * n, size=None if size == 0 else size, seed=seed, rank=r, world_size=W)
-            s.set_epoch(epoch)
-            out = list(s)
-            ln = len(s)
+            outs = []
+            for r in range(W):
+                s = WS_MOD.WeightedSampler(LenDS(n), weights=[1.0] * n, size=None if size == 0 else size, seed=seed, rank=r, world_size=W)
+                s.set_epoch(epoch)
+                out = list(s)
+                if len(s) != eff // W or len(out) != len(s):
+                    return fail("epoch length does not match size // world_size")
+                outs += out
+    except ScriptExhausted:
+        return fail("ranks asked for draws under more than two different generator keys")
+    except ShimMiss:
+        raise
     except Exception as e:
         return fail("exception " + type(e).__name__)
-    if ln != eff // W or len(out) != ln:
-        return fail("epoch length does not match size // world_size")
-    for x in range(len(out)):
-        if not (0 <= out[x] < n):
+    for x in range(len(outs)):
+        if not (0 <= outs[x] < n):
             return fail("invalid index")
         for y in range(x):
-            if out[x] == out[y]:
-                return fail("index repeated within an epoch")
+            if outs[x] == outs[y]:
+                return fail("index repeated within an epoch (over all ranks)")
     return True
 
 
@@ -217,10 +226,9 @@ def conditions(tier, rng):
                         bounds="layout, chunk sizes, length mode, W enumerated; all ranks; permutation draws, seed, epoch, rank/epoch hashes symbolic"))
     for n in range(1, 5 if q else 6):
         for W in (1, 2, 3):
-            for r in range(W):
-                conds.append(Cond(
-                    name=f"weighted[n={n},W={W},rank={r}]", harness=H, body="body_weighted", cfg=(n, W, r),
-                    params=[("size", "int"), ("seed", "int"), ("epoch", "int")] + [(f"d{k}", "int") for k in range(n)],
-                    pre=[f"0 <= size <= {n}", "0 <= epoch"] + [f"0 <= d{k} < {n}" for k in range(n)], timeout=to, group="weighted", cost=n,
-                    bounds="size (0=None) and the multinomial draw symbolic"))
+            conds.append(Cond(
+                name=f"weighted[n={n},W={W}]", harness=H, body="body_weighted", cfg=(n, W),
+                params=[("size", "int"), ("seed", "int"), ("epoch", "int")] + [(f"d{k}", "int") for k in range(2 * n)],
+                pre=[f"0 <= size <= {n}", "0 <= epoch"] + [f"0 <= d{k} < {n}" for k in range(2 * n)], timeout=to, group="weighted", cost=n * n,
+                bounds="size (0=None) symbolic; two symbolic multinomial draws (ranks that seed their generator alike share one); all ranks together"))
     return conds
